@@ -19,6 +19,7 @@ package factor
 
 import (
 	"errors"
+	"sync"
 
 	"seata.apache.org/seata-go/pkg/datasource/sql/types"
 	"seata.apache.org/seata-go/pkg/datasource/sql/undo"
@@ -27,17 +28,21 @@ import (
 
 var undoExecutorHolderMap map[types.DBType]undo.UndoExecutorHolder
 
+var undoExecutorHolderOnce sync.Once
+
 var ErrNotImplDBType = errors.New("db type executor not implement")
 
 // GetUndoExecutorHolder get exactly executor holder
 func GetUndoExecutorHolder(dbType types.DBType) (undo.UndoExecutorHolder, error) {
-	// lazy init
-	if undoExecutorHolderMap == nil {
-		undoExecutorHolderMap = map[types.DBType]undo.UndoExecutorHolder{
-			// todo impl oracle, mariadb, postgresql etc ...
-			types.DBTypeMySQL: executor.NewMySQLUndoExecutorHolder(),
+	// lazy init, once: concurrent branch rollbacks all come here
+	undoExecutorHolderOnce.Do(func() {
+		if undoExecutorHolderMap == nil {
+			undoExecutorHolderMap = map[types.DBType]undo.UndoExecutorHolder{
+				// todo impl oracle, mariadb, postgresql etc ...
+				types.DBTypeMySQL: executor.NewMySQLUndoExecutorHolder(),
+			}
 		}
-	}
+	})
 
 	if executorHolder, ok := undoExecutorHolderMap[dbType]; ok {
 		return executorHolder, nil
